@@ -24,6 +24,8 @@ RAW_HEADER_SETS = [
     [("Content-Type", "text/plain")],
     [],
     [("Content-Type", "text/plain"), ("Set-Cookie", "p=1; Path=/caf\xe9"), ("Set-Cookie", "q=\xfc; HttpOnly"), ("X-Name", "J\xf6rg")],
+    # field names are case-insensitive: other spellings of the same header
+    [("CONTENT-TYPE", "text/plain"), ("Set-cookie", "a=1"), ("SET-COOKIE", "b=2; Path=/"), ("set-Cookie", "c=3")],
 ]
 
 
@@ -376,6 +378,18 @@ class C20(Prop):
         finally:
             CachedStream.spool_max_size = old_spool
         tag = "%s|%s" % (iface, plan["inner"] if plan["inner"] != "view" else plan["recipe"]["kind"])
+        # what the SERVER is handed must stay within the gateway protocol wherever the bare application stayed within it
+        # (types of status / header list / items, event grammar): clauses the wrapped run trips and the bare run does not
+        def clauses(kind):
+            out = set()
+            for key, _ in ctx.monitor_trips:
+                parts = key.split("|")          # proto|<surface>|<clause>
+                if len(parts) >= 3 and parts[1].startswith("%s-%s" % (iface, kind)):
+                    out.add(parts[2])
+            return out
+        extra = sorted(clauses("wrapped") - clauses("bare"))
+        if extra and plan["stack"]:
+            ctx.violate("C20|%s|wrapped-breaks-gateway-protocol|%s" % (tag, extra[0]), "protocol clauses tripped only behind the middleware: %r; stack %r" % (extra, plan["stack"]))
         where = "[stack=%r method=%s range=%r zerocopy=%s]" % (plan["stack"], plan["method"], plan["range"], plan["zerocopy"])
         ctx.ev("bare", bare.get("status"), bare.get("headers"), len(bare.get("body") or b""), type(bare.get("exc")).__name__, bare.get("hang"))
         ctx.ev("wrapped", wrapped.get("status"), wrapped.get("headers"), len(wrapped.get("body") or b""), type(wrapped.get("exc")).__name__, wrapped.get("hang"))
